@@ -18,4 +18,13 @@ def nearestOK (pos : List (Rat × Rat)) (probes : List Nat) (peak ncw : Nat) (ro
   ((head.zip head.tail).all fun p => decide (l1 pos peak p.1 ≤ l1 pos peak p.2)) &&
   same.all (fun c => head.contains c || head.all fun h => decide (l1 pos peak h ≤ l1 pos peak c))
 
+/-- The probe labels are non-decreasing ALONG THE CHANNEL MAP: a channel with a smaller raw index never carries a
+larger probe label.  This is what a merge produces (`rawInd_inverts_merge`: blocks labelled 0..k-1 with increasing
+offsets); it is exactly the class of tables on which `make_channel_objects` (subtracting the previous label's largest
+raw index + 1) yields no negative index: with an inversion, two consecutive labels `L < L'` have a channel of `L'`
+below the largest raw index of `L`, whose exported index is negative. -/
+def probesOrdered (cm probes : List Nat) : Bool :=
+  (List.range cm.length).all fun a => (List.range cm.length).all fun b =>
+    !(decide (cm.getD a 0 < cm.getD b 0)) || decide (probes.getD a 0 ≤ probes.getD b 0)
+
 end PhyVerif.C14
